@@ -3,7 +3,7 @@
    rand.Intn, a concrete structure satisfying those hypotheses is exhibited. *)
 From Coq Require Import Lia ZifyBool.
 From GL Require Import Common.Bytes Str.StrModel Str.StrFacts Str.FormatModel Str.FormatFacts
-     Str.MathWModel Str.MathWFacts Properties.C15.
+     Str.FormatRoundtrip Str.MathWModel Str.MathWFacts Str.MathWOrder Properties.C15.
 
 (* ----- index / bytes part ----- *)
 Example ex_sub : strSub [104;101;108;108;111] (-3) 10 = [108;108;111]
@@ -33,17 +33,21 @@ Example ex_char_byte : is_bytes [0;65;255] = true
 Proof. split; [reflexivity | apply char_byte_roundtrip; reflexivity]. Qed.
 
 (* ----- string.format ----- *)
+(* "%-+8.3d" of 42 = "+042    " : width, left justification, precision *)
+Definition sp1 : dspec := mkD true true false false false (Some 8) (Some 3) 100.
 Example ex_in_int64 : in_int64 (-1234567) = true. Proof. reflexivity. Qed.
 Example ex_format_d : format true [37;100] [zarg (-1234567)] = FOk [45;49;50;51;52;53;54;55]
                       /\ parse_int [45;49;50;51;52;53;54;55] = -1234567.
 Proof. split; vm_compute; reflexivity. Qed.
 Example ex_format_d_thm : exists s, format true [37;100] [zarg (-1234567)] = FOk s /\ parse_int s = -1234567.
 Proof. apply format_d_roundtrip. reflexivity. Qed.
+Example ex_format_d_all : fmt_signed true sp1 42 = [43;48;52;50;32;32;32;32]
+                          /\ strip [43;48;52;50;32;32;32;32] = [43;48;52;50]
+                          /\ parse_int (strip (fmt_signed true sp1 42)) = 42.
+Proof. split; [vm_compute; reflexivity | split; [vm_compute; reflexivity | apply format_d_roundtrip_all]]. Qed.
 Example ex_digits_value : of_digits 16 (digits 16 true 48879) = 48879 /\ digits 16 true 48879 = [66;69;69;70].
 Proof. split; [apply format_digits_value; lia | vm_compute; reflexivity]. Qed.
 
-(* "%-+8.3d" of 42 = "+042    " : width, left justification, precision *)
-Definition sp1 : dspec := mkD true true false false false (Some 8) (Some 3) 100.
 Example ex_sp1 : fmt_dir true sp1 (zarg 42) = Some [43;48;52;50;32;32;32;32].
 Proof. vm_compute. reflexivity. Qed.
 Example ex_format_width : owidth (d_width sp1) <= len [43;48;52;50;32;32;32;32].
@@ -134,6 +138,22 @@ Example ex_max_num :
   run_math MMax [NFin true 0 0; NFin false 0 0; NFin true 3 (-1); NInf true] = MOk [NFin true 0 0] /\
   run_math MMin [NFin false 1 0; NInf true; NFin true 1 1074] = MOk [NInf true].
 Proof. split; vm_compute; reflexivity. Qed.
+
+Example ex_max_run :
+  Forall not_nan [NFin true 0 0; NFin false 3 (-1); NInf true] /\
+  exists res, run_math MMax [NFin true 0 0; NFin false 3 (-1); NInf true] = MOk [res] /\
+              In res [NFin true 0 0; NFin false 3 (-1); NInf true] /\
+              forall a, In a [NFin true 0 0; NFin false 3 (-1); NInf true] -> num_ltb res a = false.
+Proof.
+  assert (H : Forall not_nan [NFin true 0 0; NFin false 3 (-1); NInf true])
+    by (repeat constructor; discriminate).
+  split; [exact H | apply max_spec_run; exact H].
+Qed.
+Example ex_min_run :
+  exists res, run_math MMin [NFin true 0 0; NFin false 3 (-1); NInf true] = MOk [res] /\
+              In res [NFin true 0 0; NFin false 3 (-1); NInf true] /\
+              forall a, In a [NFin true 0 0; NFin false 3 (-1); NInf true] -> num_ltb a res = false.
+Proof. apply min_spec_run. repeat constructor; discriminate. Qed.
 
 Example ex_random : exists r, mathRandom Z (fun z => z) (fun z => z) zdraw [-3; 5] = MOk [r] /\ -3 <= r <= 5.
 Proof. apply (random_in_range Z (fun z => z) (fun z => z) zdraw zdraw_range zdraw_pos). lia. Qed.
